@@ -104,6 +104,17 @@ func genWorld(seed uint64, tier string, mode string) *Script {
 		if g.p(20) {
 			c.NoAS4 = true
 		}
+		if c.Kind == "ebgp" && !o.Select {
+			if g.p(20) {
+				c.ReplacePeer = true
+			}
+			if g.p(20) {
+				c.RemovePriv = pick(g, []string{"all", "replace"})
+			}
+		}
+		if g.p(12) && !o.Select {
+			c.AllowOwnAS = g.rng(1, 2)
+		}
 		if g.p(30) {
 			c.ExtMsg = true
 		}
@@ -147,7 +158,7 @@ func genWorld(seed uint64, tier string, mode string) *Script {
 		}
 	}
 	serial := 0
-	asPool := []uint32{65001, 65002, 65003, 65004, 65010, 65020, 64512, 65000}
+	asPool := []uint32{65001, 65002, 65003, 65004, 65010, 65020, 64512, 65000, 100, 200, 3000}
 	mkAttrs := func(c *PeerCfg) *AttrSpec {
 		if o.Select {
 			// tiny domains so that candidates tie on the early steps
@@ -275,6 +286,36 @@ func genWorld(seed uint64, tier string, mode string) *Script {
 	}
 	p0.Settle, p0.Check = 8, true
 	sc.Phases = append(sc.Phases, p0)
+	if o.Select && g.p(50) {
+		// "pairs" style: every destination gets exactly two candidates from two different sources,
+		// so the reported best is the plain pairwise decision (no room for order effects)
+		sc.Phases[0].Ops = nil
+		for i := range sc.Peers {
+			sc.Phases[0].Ops = append(sc.Phases[0].Ops, Op{Kind: "up", Actor: i})
+		}
+		pool = nil
+		for i := 0; i < 12; i++ {
+			pool = append(pool, fmt.Sprintf("10.%d.%d.0/24", 20+i/4, i%4))
+		}
+		var p1 Phase
+		for _, pfx := range pool {
+			a := g.n(np)
+			b := (a + 1 + g.n(np-1)) % np
+			for _, pi := range []int{a, b} {
+				op := mkAnn(&sc.Peers[pi])
+				op.Family, op.Prefix = "ipv4-unicast", pfx
+				op.Attrs.NextHop = sc.Peers[pi].Addr
+				if sc.Peers[pi].AddPathRecv {
+					op.PathID = 1
+				}
+				p1.Ops = append(p1.Ops, op)
+			}
+		}
+		p1.Settle, p1.Check = 10, true
+		sc.Phases = append(sc.Phases, p1)
+		sc.Final = "stop"
+		return sc
+	}
 	nph := g.rng(2, o.MaxPhases)
 	down := map[int]bool{}
 	deleted := map[int]bool{}
@@ -656,6 +697,7 @@ func worldCheck(w *simWorld, phase int) {
 					w.violate("C02", "loc-rib-duplicate", kk, "two Loc-RIB entries for one (destination, source, path-id)")
 				}
 				got[kk] = rp.Tag
+				w.checkStored(rp)
 				if rp.Best != (i == 0) && !w.sc.Global.Multipath {
 					w.violate("C02", "best-flag", kk, fmt.Sprintf("best flag %v at position %d", rp.Best, i))
 				}
@@ -949,8 +991,8 @@ func (w *simWorld) checkBest(prefix string, paths []*ribPath) {
 		w.probe("med_not_comparable")
 		if !in(pre) {
 			w.violate("C03", "best-path-pre-med", prefix, fmt.Sprintf("reported best %s is eliminated before the MED step; survivors: %s; candidates: %s", desc([]cand{got}), desc(pre), desc(cands)))
+			return
 		}
-		return
 	}
 	if len(best) > 1 {
 		w.probe("best_open_choice")
@@ -988,6 +1030,11 @@ func (w *simWorld) medHazard(prefix string) bool {
 			l = append(l, cand{r: r})
 		}
 	}
+	if len(l) < 3 {
+		// the order dependence needs a third route (or a replaced one) in the destination's history;
+		// with two announcements ever, the pairwise comparison is the whole decision
+		return false
+	}
 	for i := range l {
 		for j := i + 1; j < len(l); j++ {
 			a, b := l[i], l[j]
@@ -1002,4 +1049,41 @@ func (w *simWorld) medHazard(prefix string) bool {
 		}
 	}
 	return false
+}
+
+// checkStored: the route as stored in the Loc-RIB still carries what was received (C09: producing
+// a peer's copy never alters the stored route; C02: the table holds the latest announcement).
+func (w *simWorld) checkStored(rp *ribPath) {
+	w.mu.Lock()
+	r := w.tags[rp.Tag]
+	w.mu.Unlock()
+	if r == nil || len(w.sc.Policies) > 0 {
+		return
+	}
+	var src *PeerCfg
+	if rp.Src != "" {
+		sp := w.peerByAddr(rp.Src)
+		if sp == nil {
+			return
+		}
+		src = sp.cfg
+	}
+	want := specAttrs(r, src)
+	if src != nil && !isIBGPKind(src.Kind) && src.Kind != "rsclient" {
+		want.LocalPref = -1
+	}
+	if src == nil {
+		// API routes: gobgp may add nothing; an absent AS_PATH stays absent
+		if len(r.Spec.ASPath) == 0 {
+			want.HasASPath = rp.Attrs.HasASPath
+		}
+	}
+	if r.Fam == famV6 && src != nil {
+		want.NextHop = rp.Attrs.NextHop // the harness picks the v6 next hop per peer; compared in the views
+	}
+	g := normalizeObserved(rp.Attrs)
+	ws := normalizeObserved(want)
+	if g.String() != ws.String() {
+		w.violate("C09", "stored-route-altered", fmt.Sprintf("%s from %s", rp.Prefix, srcKind(src)), fmt.Sprintf("Loc-RIB holds {%s}, the route was received as {%s}", g, ws))
+	}
 }
